@@ -47,6 +47,15 @@ def check_part_fields(expr_text, what):
         if m.group(1) not in PART_FIELDS and m.group(1) != 'mpp_part':
             raise TranslateError("%s reads unknown part field `%s`" % (what, m.group(1)))
 
+RUST_KW = {'if', 'else', 'let', 'mut', 'return', 'true', 'false', 'as', 'u64', 'u32', 'u8', 'usize', 'self', 'msgs'}
+def check_vars(text, allowed, what):
+    """every free (lower-case) variable of a translated Rust fragment must be a parameter of the Lean function it becomes"""
+    bound = set(re.findall(r'\|\s*&?\s*(\w+)\s*\|', text)) | set(re.findall(r'\blet\s+(?:mut\s+)?(\w+)', text))
+    for m in re.finditer(r'(?<![.\w:])([a-z_][a-z0-9_]*)\b(?!\s*(?:\(|!|::))', text):
+        v = m.group(1)
+        if v in RUST_KW or v in bound or v in allowed: continue
+        raise TranslateError("%s mentions `%s`, which is not one of %s" % (what, v, sorted(allowed)))
+
 def struct_fields(src, header):
     m = re.search(header + r'\s*\{', src)
     if not m: raise TranslateError("%s not found" % header)
@@ -127,6 +136,8 @@ def main(out_path):
         raise TranslateError("check_mpp_timeout: expected exactly one element mutation `htlc.timer_ticks += ..`")
     inner2 = inner[:m.start()] + 'timer_ticks_new = htlc.timer_ticks + (%s);' % m.group(1) + inner[m.end():].replace('htlc.timer_ticks', 'timer_ticks_new')
     if 'htlc.timer_ticks' in inner[:m.start()]: raise TranslateError("check_mpp_timeout reads timer_ticks before incrementing it")
+    check_vars(inner, {'total_intended_recvd_value', 'timed_out', 'htlc'}, 'check_mpp_timeout loop body')
+    check_vars(post.strip()[:-1], {'total_intended_recvd_value', 'total_mpp_value', 'timed_out'}, 'check_mpp_timeout epilogue')
     em = emitter()
     blk = parse_block('{' + inner2 + ' (total_intended_recvd_value, timed_out, timer_ticks_new) }')
     L += ['/-- loop body of channelmanager.rs::check_mpp_timeout (translated): `%s` -/' % norm(inner),
@@ -159,12 +170,15 @@ def main(out_path):
     if not re.search(r'let onions_compatible = payment_onion_fields\.check_merge\(&mut onion_fields\);\s*if onions_compatible\.is_err\(\) \{\s*return Err\(\(\)\);\s*\}', pre):
         raise TranslateError("check_incoming_mpp_part: check_merge prologue changed")
     check_part_fields(init, 'check_incoming_mpp_part')
+    check_vars(init, {'new_htlc'}, 'check_incoming_mpp_part accumulator initialisation')
     L += ['/-- check_incoming_mpp_part: `let mut total_intended_recvd_value = %s;` -/' % init,
           'def incomingInit (new_htlc : PartG) : Nat :=', '  ' + emitter().e(parse_expr(init)), '']
     inner = loop[1:-1]
     m = re.fullmatch(r'\s*(.*?;)\s*if\s+([^{}]+?)\s*\{\s*break;\s*\}\s*', inner, re.S)
     if not m: raise TranslateError("check_incoming_mpp_part: loop body is no longer `<stmts>; if <cond> { break; }`")
     check_part_fields(m.group(1), 'check_incoming_mpp_part')
+    check_vars(m.group(1), {'total_intended_recvd_value', 'htlc'}, 'check_incoming_mpp_part loop body')
+    check_vars(m.group(2), {'total_intended_recvd_value'}, 'check_incoming_mpp_part break condition')
     L += ['/-- loop body (translated): `%s` -/' % norm(m.group(1)),
           'def incomingBody (total_intended_recvd_value : Nat) (htlc : PartG) : Nat :=',
           '  ' + emitter().block(parse_block('{' + m.group(1) + ' total_intended_recvd_value }')), '',
@@ -187,8 +201,11 @@ def main(out_path):
     m3 = re.fullmatch(r'htlc_set\.push\(new_htlc\); let amount_msat = (.+?); htlc_set \.iter_mut\(\) \.for_each\(\|htlc\| htlc\.mpp_part_mut\(\)\.total_value_received = Some\(amount_msat\)\); htlc_set\.sort\(\); Ok\(true\)', norm(chain[2][1]))
     if not m3: raise TranslateError("check_incoming_mpp_part completing arm changed: %r" % norm(chain[2][1]))
     if norm(chain[3][1]) != 'htlc_set.push(new_htlc); Ok(false)': raise TranslateError("check_incoming_mpp_part holding arm changed")
-    for c, _ in chain[:3]: check_part_fields(c, 'check_incoming_mpp_part')
+    for c, _ in chain[:3]:
+        check_part_fields(c, 'check_incoming_mpp_part')
+        check_vars(c, {'total_intended_recvd_value', 'new_htlc', 'total_mpp_value'}, 'check_incoming_mpp_part verdict condition')
     check_part_fields(m3.group(1), 'check_incoming_mpp_part')
+    check_vars(m3.group(1), {'htlc_set'}, 'check_incoming_mpp_part amount_msat')
     ce = [emitter().e(parse_expr(c)) for c, _ in chain[:3]]
     L += ['/-- outcome of check_incoming_mpp_part: `Err(())` / `Ok(true)` / `Ok(false)` -/',
           'inductive Verdict where', '  | reject | complete | hold', '  deriving DecidableEq, Repr', '',
@@ -230,7 +247,9 @@ def main(out_path):
     _, _, sk = find_fn(cm, 'total_counterparty_skimmed_msat')
     sk = norm(strip_comments(sk))[1:-1].strip()
     fe = {'self.htlcs': 'htlcs', 'claimable_payment.htlcs': 'htlcs', 'payment.htlcs': 'htlcs'}
-    for t in (sk, lets['amount_msat'], lets['total_sender_intended']): check_part_fields(t, 'handle_claimable_htlc')
+    for t in (sk, lets['amount_msat'], lets['total_sender_intended']):
+        check_part_fields(t, 'handle_claimable_htlc')
+        check_vars(t.replace('self.htlcs', 'htlcs').replace('claimable_payment.htlcs', 'htlcs'), {'htlcs'}, 'PaymentClaimable amounts')
     L += ['/-- PaymentClaimable.amount_msat: `%s` -/' % lets['amount_msat'],
           'def eventAmount (htlcs : List PartG) : Nat :=', '  ' + emitter(fe).e(parse_expr(lets['amount_msat'])), '',
           '/-- PaymentClaimable.counterparty_skimmed_fee_msat = total_counterparty_skimmed_msat(): `%s` -/' % sk,
@@ -248,6 +267,8 @@ def main(out_path):
     if len(chain) != 1 or not re.fullmatch(r'(log_error!\(.*?\);\s*)?(debug_assert!\(false\);\s*)?valid_mpp = false;\s*break;', norm(chain[0][1])):
         raise TranslateError("claim_payment_internal: loop head is no longer `if <mismatch> { ..; valid_mpp = false; break; }`")
     check_part_fields(chain[0][0], 'claim_payment_internal'); check_part_fields(rest, 'claim_payment_internal')
+    check_vars(chain[0][0], {'expected_amt_msat', 'htlc'}, 'claim_payment_internal mismatch test')
+    check_vars(rest, {'expected_amt_msat', 'claimable_amt_msat', 'htlc'}, 'claim_payment_internal loop body')
     L += ['/-- claim_payment_internal loop: `if %s { valid_mpp = false; break; }` -/' % chain[0][0],
           'def claimMismatch (expected_amt_msat : Option Nat) (htlc : PartG) : Bool :=',
           '  ' + emitter().e(parse_expr(chain[0][0])), '',
@@ -269,6 +290,8 @@ def main(out_path):
             raise TranslateError("claim_payment_internal: early-return guards changed")
     if len(chain3) != 2 or chain3[0][0] != 'valid_mpp' or 'claim_funds_from_hop' not in chain3[0][1] or 'fail_htlc_backwards_internal' not in chain3[1][1]:
         raise TranslateError("claim_payment_internal: `if valid_mpp { claim all } else { fail all }` changed")
+    check_vars(chain1[0][0], {'sources', 'expected_amt_msat'}, 'claim_payment_internal first guard')
+    check_vars(chain2[0][0], {'claimable_amt_msat', 'expected_amt_msat'}, 'claim_payment_internal amount guard')
     L += ['/-- "no longer had any available HTLCs": `if %s { .. return; }` -/' % chain1[0][0],
           'def claimNothing (sources : List PartG) (expected_amt_msat : Option Nat) : Bool :=',
           '  ' + emitter().e(parse_expr(chain1[0][0])), '',
@@ -286,6 +309,7 @@ def main(out_path):
     if not m1: raise TranslateError("ClaimingPayment.amount_msat not found")
     amt = norm(m1.group(1))
     check_part_fields(amt, 'begin_claiming_payment')
+    check_vars(amt.replace('payment.htlcs', 'htlcs'), {'htlcs'}, 'ClaimingPayment.amount_msat')
     if not re.search(r'let sender_intended_value = payment\.onion_fields\.total_mpp_amount_msat;', b) or not re.search(r'sender_intended_value:\s*Some\(sender_intended_value\)', lit):
         raise TranslateError("ClaimingPayment.sender_intended_value is no longer the onion's total_mpp_amount_msat")
     if not re.search(r'sender_intended_value:\s*sender_intended_total_msat,', cm) or not re.search(r'events::Event::PaymentClaimed\s*\{\s*payment_hash,\s*purpose,\s*amount_msat,\s*receiver_node_id: Some\(receiver_node_id\),\s*htlcs,\s*sender_intended_total_msat,', cm):
@@ -308,6 +332,7 @@ def main(out_path):
     b = strip_comments(body)
     m = re.search(r'let value = ([^;]+);', b)
     if not m: raise TranslateError("process_receive_htlcs: `let value = ..` not found")
+    check_vars(m.group(1), {'incoming_amt_msat', 'outgoing_amt_msat'}, 'process_receive_htlcs value')
     L += ['/-- process_receive_htlcs: `let value = %s;` (incoming_amt_msat: amount of the update_add_htlc;' % norm(m.group(1)),
           '    outgoing_amt_msat: the onion\'s amt_to_forward) -/',
           'def recvValue (incoming_amt_msat : Option Nat) (outgoing_amt_msat : Nat) : Nat :=',
@@ -324,6 +349,9 @@ def main(out_path):
     em = emitter()
     flds = [(n, em.e(inner[n])) for n in ('value', 'sender_intended_value', 'timer_ticks', 'total_value_received', 'cltv_expiry')]
     flds.append(('counterparty_skimmed_fee_msat', em.e(outer['counterparty_skimmed_fee_msat'])))
+    for n, v in flds:
+        if v not in ('value', 'outgoing_amt_msat', 'cltv_expiry', 'skimmed_fee_msat', '0', 'none'):
+            raise TranslateError("process_receive_htlcs fills %s with `%s`" % (n, v))
     L += ['/-- process_receive_htlcs: the `ClaimableHTLC { mpp_part: MppPart { .. }, counterparty_skimmed_fee_msat: .. }` it hands to handle_claimable_htlc -/',
           'def recvPart (value outgoing_amt_msat cltv_expiry : Nat) (skimmed_fee_msat : Option Nat) : PartG :=',
           '  { ' + ', '.join('%s := %s' % f for f in flds) + ' }', '']
@@ -335,6 +363,7 @@ def main(out_path):
     if idx < 0: raise TranslateError("FinalIncorrectHTLCAmount check not found")
     ifs = [m for m in re.finditer(r'\bif\s+([^{}]*?)\{', b[:idx])]
     cond = norm(ifs[-1].group(1))
+    check_vars(cond, {'allow_underpay', 'onion_amt_msat', 'amt_msat', 'counterparty_skimmed_fee_msat'}, 'create_recv_pending_htlc_info amount test')
     L += ['/-- onion_payment.rs::create_recv_pending_htlc_info, FinalIncorrectHTLCAmount: `%s`' % cond,
           '    (amt_msat: amount of the HTLC; onion_amt_msat: amt_to_forward; allow_underpay: the channel\'s accept_underpaying_htlcs) -/',
           'def recvAmountTooLow (allow_underpay : Bool) (onion_amt_msat amt_msat : Nat) (counterparty_skimmed_fee_msat : Option Nat) : Bool :=',
